@@ -124,6 +124,19 @@ CHECKS["C08"] = dict(
     technique="Coq proof over translator-generated tables + model/implementation correspondence on malformed frames",
 )
 
+CHECKS["C09"] = dict(
+    category="proof",
+    text=("Coq model of startup_reset/reset/version/_switch_protocol_version over the generated version lists, header kinds and default-"
+          "config tables; theorems for EVERY reported version number: first query legacy asking for v4, reported version adopted with its "
+          "own tables when supported else the newest, second query in the new layout iff the version differs, later frames in the adopted "
+          "layout, a default-config table exists for the adopted handler (incl. unknown newer versions), legacy again after every reset. "
+          "Tied to the code by correspondence on the FULL stack (real ASH, Gateway, EZSP, virtual time) against a simulated NCP for versions "
+          "4..14, 15, 16, 200 x serial / socket paths x second reset; single link faults explored with the property predicate."),
+    design_ref="DESIGN.md section 6 C09",
+    technique="Coq proof over translator-generated tables + full-stack model/implementation correspondence",
+    note=TB + "; link faults during bring-up are explored (exploration level), not proved here: the link is C01/C05's subject; the NCP simulator is an assumption about firmware",
+)
+
 NOT_YET = {}
 
 
